@@ -101,6 +101,7 @@ func mkTable(powers []int64) *gpbft.PowerTable {
 
 var (
 	chainV = &gpbft.ECChain{TipSets: []*gpbft.TipSet{{Epoch: 0, Key: []byte("b"), PowerTable: vfix.TableCID(nil)}, {Epoch: 1, Key: []byte("v"), PowerTable: vfix.TableCID(nil)}}}
+	chainX = &gpbft.ECChain{TipSets: []*gpbft.TipSet{{Epoch: 0, Key: []byte("b"), PowerTable: vfix.TableCID(nil)}, {Epoch: 1, Key: []byte("x"), PowerTable: vfix.TableCID(nil)}}}
 	chainW = &gpbft.ECChain{TipSets: []*gpbft.TipSet{{Epoch: 0, Key: []byte("b"), PowerTable: vfix.TableCID(nil)}, {Epoch: 1, Key: []byte("w"), PowerTable: vfix.TableCID(nil)}}}
 )
 
@@ -137,6 +138,19 @@ func tallyCase(whole, support, other int64) bool {
 	}
 	if got, want := q.CouldReachStrongQuorumFor(chainV.Key(), true), strongRef(slack, whole); got != want {
 		chk.Violation("could-reach-adversary-inexact", fmt.Sprintf("whole=%d support=%d other=%d withAdversary: got %v want %v", whole, support, other, got, want), rep)
+		return false
+	}
+	// a value nobody has voted for (no tally entry at all): only the unvoted power (plus the slack) can support it
+	if got, want := q.CouldReachStrongQuorumFor(chainX.Key(), false), strongRef(unvoted, whole); got != want {
+		chk.Violation("could-reach-inexact", fmt.Sprintf("whole=%d voted=%d: CouldReachStrongQuorumFor(a value without any vote)=%v but the unvoted %d reach a strong quorum: %v", whole, support+other, got, unvoted, want), rep)
+		return false
+	}
+	slackX := unvoted + whole/3
+	if slackX > whole {
+		slackX = whole
+	}
+	if got, want := q.CouldReachStrongQuorumFor(chainX.Key(), true), strongRef(slackX, whole); got != want {
+		chk.Violation("could-reach-adversary-inexact", fmt.Sprintf("whole=%d voted=%d withAdversary, a value without any vote: got %v want %v (unvoted %d + slack %d)", whole, support+other, got, want, unvoted, whole/3), rep)
 		return false
 	}
 	return true
@@ -312,6 +326,30 @@ func scaleCase(keys vfix.Keys, t []int) (string, string, any) {
 	if err := pt.Validate(); err != nil {
 		return "table-validate", fmt.Sprintf("table %v: Validate: %v", t, err), rep
 	}
+	// the same members joining one call at a time (in the order of the tuple: all orders are enumerated), and joining
+	// a copy of the table built so far, must give the same table as one call with everybody
+	inc := gpbft.NewPowerTable()
+	for k, e := range entries {
+		viaCopy := inc.Copy()
+		if err := inc.Add(e); err != nil {
+			return "table-add-error", fmt.Sprintf("table %v: incremental Add #%d: %v", t, k, err), rep
+		}
+		if err := viaCopy.Add(e); err != nil {
+			return "table-add-error", fmt.Sprintf("table %v: Add #%d on a copy: %v", t, k, err), rep
+		}
+		one := gpbft.NewPowerTable()
+		if err := one.Add(entries[:k+1]...); err != nil {
+			return "table-add-error", fmt.Sprintf("table %v: Add of the first %d: %v", t, k+1, err), rep
+		}
+		for name, x := range map[string]*gpbft.PowerTable{"member by member": inc, "onto a copy": viaCopy} {
+			if !x.Entries.Equal(one.Entries) || fmt.Sprint(x.ScaledPower) != fmt.Sprint(one.ScaledPower) || x.ScaledTotal != one.ScaledTotal || x.Total.Int.Cmp(one.Total.Int) != 0 {
+				return "table-depends-on-how-it-was-built", fmt.Sprintf("table %v after %d members, built %s: scaled %v total %d; built with one call: scaled %v total %d", t, k+1, name, x.ScaledPower, x.ScaledTotal, one.ScaledPower, one.ScaledTotal), rep
+			}
+			if err := x.Validate(); err != nil {
+				return "table-validate", fmt.Sprintf("table %v built %s: Validate: %v", t, name, err), rep
+			}
+		}
+	}
 	// three-way agreement on every signer subset
 	n := len(canon)
 	tcid := vfix.TableCID(canon)
@@ -401,12 +439,12 @@ func (h *valHost) GetCommittee(_ context.Context, _ uint64) (*gpbft.Committee, e
 	}
 	return &gpbft.Committee{PowerTable: pt, Beacon: []byte("beacon"), AggregateVerifier: agg}, nil
 }
-func (h *valHost) NetworkName() gpbft.NetworkName                    { return vfix.Network }
-func (h *valHost) RequestBroadcast(*gpbft.MessageBuilder) error      { return nil }
-func (h *valHost) RequestRebroadcast(gpbft.Instant) error            { return nil }
-func (h *valHost) Time() time.Time                                   { return time.Unix(0, 0) }
-func (h *valHost) SetAlarm(time.Time)                                {}
-func (h *valHost) Verify(pk gpbft.PubKey, msg, sig []byte) error     { return h.keys.Verify(pk, msg, sig) }
+func (h *valHost) NetworkName() gpbft.NetworkName                      { return vfix.Network }
+func (h *valHost) RequestBroadcast(*gpbft.MessageBuilder) error        { return nil }
+func (h *valHost) RequestRebroadcast(gpbft.Instant) error              { return nil }
+func (h *valHost) Time() time.Time                                     { return time.Unix(0, 0) }
+func (h *valHost) SetAlarm(time.Time)                                  {}
+func (h *valHost) Verify(pk gpbft.PubKey, msg, sig []byte) error       { return h.keys.Verify(pk, msg, sig) }
 func (h *valHost) Aggregate(p []gpbft.PubKey) (gpbft.Aggregate, error) { return h.keys.Aggregate(p) }
 func (h *valHost) ReceiveDecision(context.Context, *gpbft.Justification) (time.Time, error) {
 	return time.Time{}, nil
